@@ -72,6 +72,8 @@ pub static SCENARIOS: &[ScenarioDef] = &[
         "C14: a cascade over more than 128 nodes re-pins the reclaiming thread in the middle while another thread is pinned"),
     scen!("rc/concurrent-release", concurrent_release,
         "two threads release the last two handles of one graph concurrently"),
+    scen!("rc/handover-into-reclaimed", handover_into_reclaimed,
+        "C02: a thread that took Rc::snapshot of a fresh object hands the Rc to a reader, which swaps it into a link of a node that a stalled dropper has left with a stale stamp and that is reclaimed by its parent's cascade: only the link's own stamp protects the fresh object"),
     scen!("rc/first-downgrade", first_downgrade,
         "C03: two threads downgrade an object that never had a weak pointer (the flag-setting CAS of one loses) while a third clones and drops strong references"),
     scen!("rc/latency-vs-holder", latency_vs_holder,
@@ -480,6 +482,9 @@ fn stalled_dropper(p: &Params) -> Program {
     let age = p.get("age", 4) as usize;
     let k = p.get("k", 3) as usize;
     let split = p.get("split", 0) != 0;
+    // the reader gets at c through a weak link and WeakSnapshot::upgrade (which stamps c) instead
+    // of loading it from the second strong link
+    let viaweak = p.get("viaweak", 0) != 0;
     Program {
         setup: Some(body(move |c, w| {
             build_chain2(c, w, 0, 0);
@@ -488,6 +493,9 @@ fn stalled_dropper(p: &Params) -> Program {
             let cs = c.load(&c.snode(ps).next[0], &g);
             let rc = c.counted(cs);
             let extra = c.clone_rc(&rc);
+            if viaweak {
+                c.wstore(&w.wroots[0], c.downgrade(&rc), &g);
+            }
             c.store(&w.roots[1], rc, &g);
             c.unpin(g);
             w.rc[0].put(extra);
@@ -512,11 +520,19 @@ fn stalled_dropper(p: &Params) -> Program {
                 c.rounds(if split { 1 } else { 2 });
             }),
             // the reader, through the second link
-            body(|c, w| {
+            body(move |c, w| {
                 let g = c.pin();
-                let s = c.load(&w.roots[1], &g);
-                c.sderef(s);
-                c.sderef(s);
+                if viaweak {
+                    let ws = c.wload(&w.wroots[0], &g);
+                    if let Some(s) = c.ws_upgrade(ws) {
+                        c.sderef(s);
+                        c.sderef(s);
+                    }
+                } else {
+                    let s = c.load(&w.roots[1], &g);
+                    c.sderef(s);
+                    c.sderef(s);
+                }
                 c.unpin(g);
             }),
             // removes the second link
@@ -531,6 +547,76 @@ fn stalled_dropper(p: &Params) -> Program {
         .into_iter()
         .chain(if split { Some(rounds_thread(1)) } else { None })
         .collect(),
+        ..base(p)
+    }
+}
+
+/// root0 -> p -> c, root1 -> c, an extra Rc to c. Needs three preemptions (the dropper between
+/// its epoch read and its CAS, the reader between its load and the hand-over, the creator between
+/// the hand-over and its dereference); everything else is arranged so that threads run to
+/// completion in order.
+fn handover_into_reclaimed(p: &Params) -> Program {
+    let age = p.get("age", 4) as usize;
+    Program {
+        setup: Some(body(move |c, w| {
+            build_chain2(c, w, 0, 0);
+            let g = c.pin();
+            let ps = c.load(&w.roots[0], &g);
+            let cs = c.load(&c.snode(ps).next[0], &g);
+            let rc = c.counted(cs);
+            let extra = c.clone_rc(&rc);
+            c.store(&w.roots[1], rc, &g);
+            c.unpin(g);
+            w.rc[0].put(extra);
+            c.rounds(age);
+        })),
+        threads: vec![
+            // the dropper (stalls between epoch read and CAS), then one round
+            body(|c, w| {
+                let r = w.rc[0].take();
+                c.drop_rc(r);
+                c.round();
+            }),
+            // unlinks p (its attempt is ripe three epochs later), then reads c through the second
+            // link, waits for the fresh object and links it below c; its last round runs the
+            // cascade
+            body(|c, w| {
+                let g = c.pin();
+                c.store(&w.roots[0], Rc::null(), &g);
+                c.flush(&g);
+                c.unpin(g);
+                let g = c.pin();
+                let s = c.load(&w.roots[1], &g);
+                if !s.s.is_null() {
+                    c.sderef(s);
+                    if let Some(b) = w.rc[4].try_take() {
+                        let old = c.swap(&c.snode(s).next[0], b);
+                        c.drop_rc(old);
+                    }
+                }
+                c.unpin(g);
+                c.round();
+            }),
+            // removes the second link
+            body(|c, w| {
+                let g = c.pin();
+                c.store(&w.roots[1], Rc::null(), &g);
+                c.unpin(g);
+            }),
+            // creates the fresh object, keeps a Snapshot of it, hands the Rc over
+            body(|c, w| {
+                let g = c.pin();
+                let b = c.new_node(30);
+                let sb = c.snapshot(&b, &g);
+                w.rc[4].put(b);
+                c.sderef(sb);
+                c.sderef(sb);
+                c.unpin(g);
+                if let Some(b) = w.rc[4].try_take() {
+                    c.drop_rc(b);
+                }
+            }),
+        ],
         ..base(p)
     }
 }
